@@ -86,6 +86,13 @@ theorem redirect (hi : Inv' s) {src : Nat} {h h' : HV} {m' : Mem} (hs : lookup s
   unfold Inv'; rw [set_slots]; simp only [State.set]; rw [hm]
   exact InvC.redirect hi (lookup_mem hs) (cv_length _) hb
 
+theorem swap (hi : Inv' s) {src k : Nat} {hs h2 hk' hs' : HV} (hls : lookup s src = some hs)
+    (hlk : lookup s k = some h2) (hne : k ≠ src) (hbk : hk'.blk = hs.blk) (hbs : hs'.blk = h2.blk)
+    (hkk : hk'.kind ≠ .uniq) (hks : hs'.kind ≠ .uniq) :
+    Inv' ((s.set s.mem k hk').set s.mem src hs') := by
+  unfold Inv'; rw [set_slots, set_slots]; simp only [State.set]
+  exact InvC.swap hi (lookup_mem hls) (lookup_mem hlk) hne hbk hbs hkk hks
+
 theorem replace (hi : Inv' s) {src k : Nat} {hs h2 h' : HV} {m' : Mem} (hls : lookup s src = some hs)
     (hlk : lookup s k = some h2) (hne : k ≠ src) (hb : h'.blk = h2.blk) (hk' : h'.kind ≠ .uniq)
     (hm : cv m' = setAt (cv s.mem) hs.blk ((cv s.mem hs.blk).map decC)) :
@@ -413,7 +420,7 @@ theorem Lends.put {s : State} {src : Nat} {t : HV} (hl : Lends s src t) {k : Nat
   exact ⟨hs, by rw [lookup_put_ne hne]; exact h1, h2, h3⟩
 
 /-- induction principle for callback scripts: a predicate on (state, transient) preserved by the
-four state-changing actions holds after the whole script -/
+five state-changing actions holds after the whole script -/
 theorem runCb_ind (api : CbApi) (src : Nat) (P : State → HV → Prop)
     (hcloneTo : ∀ (s : State) (t : HV) (k : Nat) (m : Mem) (c : HV), P s t → lookup s k = none →
       cloneHandle s.mem t = some (m, c) →
@@ -424,6 +431,10 @@ theorem runCb_ind (api : CbApi) (src : Nat) (P : State → HV → Prop)
     (hrepl : ∀ (s : State) (t : HV) (k : Nat) (h2 : HV), P s t → k ≠ src → lookup s k = some h2 →
       h2.kind = .thin →
       P ((s.del (Arc.drop s.mem t) k).set (Arc.drop s.mem t) src (ThinArc.of_arc (ThinArc.thick s.mem h2)))
+        (ThinArc.thick s.mem h2))
+    (hswap : ∀ (s : State) (t : HV) (k : Nat) (h2 : HV), P s t → k ≠ src → lookup s k = some h2 →
+      h2.kind = .thin → api = .thinWithArcMut →
+      P ((s.set s.mem k (ThinArc.of_arc t)).set s.mem src (ThinArc.of_arc (ThinArc.thick s.mem h2)))
         (ThinArc.thick s.mem h2))
     (script : List CbAct) :
     ∀ (s : State) (t : HV) (acc : String), P s t → ∃ t', P (runCb api src script s t acc).1 t' := by
@@ -466,6 +477,17 @@ theorem runCb_ind (api : CbApi) (src : Nat) (P : State → HV → Prop)
           split
           · rename_i hthin
             exact ih _ _ _ (hrepl s t k h2 hp hc.2 hlk hthin)
+          · exact ih _ _ _ hp
+        · exact ih _ _ _ hp
+      · exact ih _ _ _ hp
+    case swapWith k =>
+      split
+      · rename_i hc
+        split
+        · rename_i h2 hlk
+          split
+          · rename_i hthin
+            exact ih _ _ _ (hswap s t k h2 hp hc.2 hlk hthin hc.1)
           · exact ih _ _ _ hp
         · exact ih _ _ _ hp
       · exact ih _ _ _ hp
@@ -517,6 +539,21 @@ theorem CbP.repl {src : Nat} {s : State} {t : HV} (hp : CbP src s t) {k : Nat} {
   rw [set_slots, del_slots]
   exact mem_setL_new (mem_delL.2 ⟨lookup_mem hls, fun e => hne e.symm⟩)
 
+theorem CbP.swap {src : Nat} {s : State} {t : HV} (hp : CbP src s t) {k : Nat} {h2 : HV} (hne : k ≠ src)
+    (hlk : lookup s k = some h2) :
+    CbP src ((s.set s.mem k (ThinArc.of_arc t)).set s.mem src (ThinArc.of_arc (ThinArc.thick s.mem h2)))
+      (ThinArc.thick s.mem h2) := by
+  obtain ⟨hi, hl⟩ := hp
+  obtain ⟨hs, hls, hbs, hks⟩ := hl
+  have hinv : Inv' ((s.set s.mem k (ThinArc.of_arc t)).set s.mem src
+      (ThinArc.of_arc (ThinArc.thick s.mem h2))) :=
+    hi.swap (hk' := ThinArc.of_arc t) (hs' := ThinArc.of_arc (ThinArc.thick s.mem h2)) hls hlk hne
+      hbs.symm rfl (by simp [ThinArc.of_arc]) (by simp [ThinArc.of_arc])
+  refine ⟨hinv, ThinArc.of_arc (ThinArc.thick s.mem h2), ?_, rfl, by simp [ThinArc.of_arc]⟩
+  apply mem_lookupL hinv.keys
+  rw [set_slots, set_slots]
+  exact mem_setL_new (mem_setL_of_ne (lookup_mem hls) (fun e => hne e.symm))
+
 theorem runCb_inv (api : CbApi) (src : Nat) (script : List CbAct) (s : State) (t : HV) (acc : String)
     (hi : Inv' s) (hl : Lends s src t) : Inv' (runCb api src script s t acc).1 := by
   obtain ⟨t', h, _⟩ := runCb_ind api src (CbP src)
@@ -524,6 +561,7 @@ theorem runCb_inv (api : CbApi) (src : Nat) (script : List CbAct) (s : State) (t
     (fun s t k hp hk _ => hp.cloneArc hk)
     (fun s t v hp => hp.write v)
     (fun s t k h2 hp hne hlk _ => hp.repl hne hlk)
+    (fun s t k h2 hp hne hlk _ _ => hp.swap hne hlk)
     script s t acc ⟨hi, hl⟩
   exact h
 
